@@ -774,6 +774,100 @@ pub fn fill_states_case(mut i: u64) -> IgsCase {
 }
 
 // ---------------------------------------------------------------------------------------------------------
+// lists part: a count field needs the list it announces (f and z: point count then x,y pairs, the document gives 128 as the
+// maximum; & loops: declared parameter count then the parameters, up to 2048)
+
+const POINT_COUNTS: [u32; 9] = [0, 1, 2, 127, 128, 129, 256, 512, 99_999];
+const LOOP_COUNTS: [u32; 11] = [0, 1, 2, 3, 4, 5, 8, 2047, 2048, 2049, 99_999];
+/// longest list written out (numbers)
+const LIST_CAP: u32 = 2300;
+
+fn sent(n: u32, completeness: u64) -> u32 {
+    match completeness {
+        0 => n,
+        1 => n.saturating_sub(1),
+        2 => n.saturating_add(1),
+        3 => n.saturating_mul(2),
+        _ => 0,
+    }
+}
+
+/// line break in front of every 8th number: none, CR LF, underscore CR LF
+fn broken(k: usize, style: u64, tok: String) -> String {
+    if k > 0 && k % 8 == 0 {
+        match style {
+            1 => format!("\r\n{tok}"),
+            2 => format!("_\r\n{tok}"),
+            _ => tok,
+        }
+    } else {
+        tok
+    }
+}
+
+pub fn lists_total() -> u64 {
+    (2 * 2 * POINT_COUNTS.len() * 5 * 3 + 2 * LOOP_COUNTS.len() * 5 * 3) as u64
+}
+
+pub fn lists_case(mut i: u64) -> IgsCase {
+    let n_points = (2 * 2 * POINT_COUNTS.len() * 5 * 3) as u64;
+    if i < n_points {
+        let style = i % 3;
+        i /= 3;
+        let completeness = i % 5;
+        i /= 5;
+        let n = POINT_COUNTS[(i % POINT_COUNTS.len() as u64) as usize];
+        i /= POINT_COUNTS.len() as u64;
+        let prefix = (i % 2) as u8;
+        let cmd = [b'f', b'z'][(i / 2) as usize];
+        let pts = sent(n, completeness).min(LIST_CAP / 2);
+        let mut params = vec![n.to_string()];
+        for k in 0..pts {
+            // inside the 320x200 screen
+            params.push(broken(params.len(), style, ((k * 37) % 320).to_string()));
+            params.push(broken(params.len(), style, ((k * 53) % 200).to_string()));
+        }
+        return IgsCase { prefix, segs: vec![IgsSeg { cmd, gt: true, params, text: Text::default(), term: 1, lp: None }] };
+    }
+    i -= n_points;
+    let style = i % 3;
+    i /= 3;
+    let completeness = i % 5;
+    i /= 5;
+    let n = LOOP_COUNTS[(i % LOOP_COUNTS.len() as u64) as usize];
+    let prefix = (i / LOOP_COUNTS.len() as u64) as u8;
+    let toks = sent(n, completeness).min(LIST_CAP);
+    // groups of four (the loop draws lines inside the screen), x and y stepped by the loop
+    let mut groups: Vec<Vec<String>> = Vec::new();
+    for k in 0..toks as usize {
+        if k % 4 == 0 {
+            groups.push(Vec::new());
+        }
+        let tok = match k % 4 {
+            0 => "x".to_string(),
+            1 => ((k * 7) % 200).to_string(),
+            2 => ((k * 37) % 320).to_string(),
+            _ => "y".to_string(),
+        };
+        groups.last_mut().unwrap().push(broken(k, style, tok));
+    }
+    if groups.is_empty() {
+        groups.push(Vec::new());
+    }
+    IgsCase {
+        prefix,
+        segs: vec![IgsSeg {
+            cmd: b'&',
+            gt: true,
+            params: vec!["0".to_string(), "3".to_string(), "1".to_string(), "0".to_string()],
+            text: Text::default(),
+            term: 1,
+            lp: Some(LoopTail { target: "L".to_string(), sep: b',', count: n.to_string(), groups }),
+        }],
+    }
+}
+
+// ---------------------------------------------------------------------------------------------------------
 // random part
 
 fn value() -> BoxedStrategy<String> {
@@ -957,6 +1051,8 @@ pub fn case_strategy(max_segs: usize) -> BoxedStrategy<IgsCase> {
         11 => seg_strategy().prop_map(|s| vec![s]),
         1 => any::<u32>().prop_map(|i| fill_states_case(i as u64 % fill_states_total()).segs),
     ];
+    // now and then a long point list (f / z; an under-filled loop would swallow the segments behind it)
+    let group = prop_oneof![40 => group, 1 => any::<u32>().prop_map(|i| lists_case(i as u64 % (2 * 2 * POINT_COUNTS.len() * 5 * 3) as u64).segs)];
     (prop_oneof![3 => Just(0u8), 1 => Just(1u8)], vec(group, 1..=max_segs))
         .prop_map(move |(prefix, groups)| {
             let mut segs = groups.concat();
